@@ -1857,6 +1857,67 @@ class Run:
         self.prev_tables = now
         return "%s:%d" % (cn, len(res))
 
+    def op_stream(self, a1, a2):
+        """C47: a query with a post-load loader (selectinload) consumed as a stream (yield_per=1).  The application makes a change
+        between two batches; the loader query of the next batch is a query like any other and must see it (autoflush)"""
+        if not self.cfg.get("autoflush", True) or self.sp_stack and False:
+            return "skip"
+        from sqlalchemy.orm import selectinload
+        sess = self.session
+        C = self.U["classes"]
+        A, B = C["A"], C["B"]
+        if len(self.entries(self.of("B"))) >= 8:
+            return "skip"
+        stmt = self.m["select"](A).options(selectinload(A.bs)).order_by(A.id).execution_options(yield_per=1)
+        pend_before = [e for e in self.entries() if self.in_session(e["obj"]) and OS.state_of(e["obj"]) == "pending"]
+        i0 = len(self.sql)
+        res = sess.execute(stmt).scalars()
+        it = iter(res)
+        first = next(it, None)
+        if first is None:
+            return "empty"
+        self.check_autoflush("query", pend_before, i0)
+        now = self.probe()
+        insp = self.m["inspect"]
+        later = []
+        for pk in sorted(now["a"]):
+            if pk <= OS.pk_of(first):
+                continue
+            key = self.m["identity_key"](A, pk) if "identity_key" in self.m else None
+            held = [e["obj"] for e in self.entries(lambda e: e["cls"] in ("A", "A2")) if self.in_session(e["obj"]) and OS.pk_of(e["obj"]) == pk]
+            if held and (OS.loaded(held[0], "bs")[0] or held[0] in sess.deleted or OS.state_of(held[0]) != "persistent"):
+                continue       # a collection that is already loaded is not loaded again by the query
+            later.append(pk)
+        if not later:
+            res.close()
+            self.adopt()
+            return "stream:nolater"
+        tpk = later[a1 % len(later)]
+        b = B(id=self._newid("B"), val=a2, a_id=tpk)       # attached through the column: no collection is touched in memory
+        self.track(b, "B")
+        sess.add(b)
+        n = len(self.sql)
+        rest = list(it)
+        ran_loader = any(st.lstrip().upper().startswith("SELECT") for st, _p in self.sql[n:])
+        if ran_loader:
+            self.check_autoflush("post-load query of a streamed result", [self.by_id[id(b)]], n)
+        else:
+            sess.flush()
+        now = self.probe()
+        for a in rest:
+            if OS.pk_of(a) == tpk and OS.loaded(a, "bs")[0]:
+                got = sorted(OS.pk_of(x) for x in a.bs)
+                want = sorted(k for k, row in now["b"].items() if row[1] == tpk)
+                if got != want:
+                    self.V("C47", "postload_collection_differs_from_rows", "A #%s.bs loaded by selectinload while streaming holds %s, the "
+                           "session's transaction has %s (a B for it was pending when the batch was loaded)" % (tpk, got, want))
+        self.adopt()
+        b.a                 # both sides loaded from here on
+        self.txn_flushed = True
+        self.prev_tables = now
+        self.bump("probe:stream_change_between_batches")
+        return "stream:%d+B" % tpk
+
     def check_autoflush(self, what, pend_before, i0=0):
         if not self.cfg.get("autoflush", True):
             return
@@ -2193,7 +2254,8 @@ class Run:
         else:
             # (a pending instance counts as the session's instance when autoflush is on: merge() flushes before it looks)
             e = self.pick(a1, lambda e: e["cls"] in ("A", "A2", "K", "B", "T") and not e.get("retired") and OS.pk_of(e["obj"]) is not None and (
-                (self.in_session(e["obj"]) and OS.state_of(e["obj"]) == "persistent" and e["obj"] not in sess.deleted) or
+                (self.in_session(e["obj"]) and OS.state_of(e["obj"]) == "persistent" and
+                 (e["obj"] not in sess.deleted or (self.cfg.get("autoflush", True) and mode == 0 and e["cls"] in ("K", "T", "A", "A2")))) or
                 (self.in_session(e["obj"]) and OS.state_of(e["obj"]) == "pending" and self.cfg.get("autoflush", True) and mode in (0, 1)
                  and e["cls"] in ("K", "T", "A", "A2")) or
                 (OS.state_of(e["obj"]) == "detached" and not insp(e["obj"]).was_deleted)))
@@ -2217,7 +2279,13 @@ class Run:
                     if x["obj"] is not e["obj"] and self.in_session(x["obj"]) and insp(x["obj"]).key == insp(e["obj"]).key:
                         target = x["obj"]
             if target is not None and (target in sess.deleted or OS.state_of(target) == "deleted"):
-                return "skip"      # the identity is on its way out (the autoflush merge() starts with deletes it): nothing to merge onto
+                if not (self.cfg.get("autoflush", True) and mode == 0 and target is e["obj"] and target in sess.deleted
+                        and OS.state_of(target) == "persistent"):
+                    return "skip"      # the identity is on its way out: nothing to merge onto
+                # marked for deletion, not flushed: the autoflush merge() starts with deletes the row, so the given state goes onto a
+                # *new* instance for that identity - exactly as if flush() had been called first
+                gone, target = target, None
+        gone = locals().get("gone")
         names = self.U["scal"][cn]
         given = {}
         if mode == 2:
@@ -2286,7 +2354,13 @@ class Run:
         if OS.pk_of(merged) != pk:
             self.V("C45", "merge_returned_other_identity", "merge() of %s #%s returned an instance with identity %s" % (cn, pk, OS.pk_of(merged)))
         st = OS.state_of(merged)
-        if mode == 3 and st != "pending" or mode != 3 and st != "persistent":
+        if gone is not None:
+            if merged is gone or merged in sess.deleted or OS.state_of(gone) != "deleted":
+                self.V("C45", "merged_onto_instance_marked_deleted", "merge() of %s #%s returned / kept the instance that was marked for "
+                       "deletion (returned is it: %s, still to be deleted: %s, its state: %s) although the flush merge() begins with removes it"
+                       % (cn, pk, merged is gone, merged in sess.deleted, OS.state_of(gone)))
+            self.bump("probe:merge_identity_marked_deleted")
+        if (mode == 3 or gone is not None) and st != "pending" or not (mode == 3 or gone is not None) and st != "persistent":
             self.V("C45", "merged_instance_state", "merge() of %s identity returned a %s instance" % ("a new" if mode == 3 else "an existing", st))
         for an, val in given.items():
             got = OS.loaded(merged, an)
@@ -2631,6 +2705,48 @@ class Run:
                    % ({"d": "Dict", "l": "List", "s": "Set", "pt": "Composite"}[flavour], what))
         self.bump("probe:mutable_%s_%s" % (flavour, what))
         return "%d.%s %s" % (e["label"], flavour, what)
+
+    def op_m_expire_part(self, a1, a2):
+        """C46: one of the columns under a composite changes in the database (a plain UPDATE on the session's own connection), then just
+        that column is expired / refreshed: the composite read next must be built from what the row says now, the sibling column stays"""
+        e = self.pick(a1, lambda e: e["cls"] == "M" and OS.state_of(e["obj"]) == "persistent" and self.in_session(e["obj"])
+                      and e["obj"] not in self.session.deleted)
+        if e is None:
+            return "skip"
+        o = e["obj"]
+        sess = self.session
+        if sess.new or sess.dirty or sess.deleted:
+            sess.flush()
+            self.txn_flushed = True
+        before = o.pt                      # the composite value is loaded (cached on the object) from here on
+        col = ("x", "y")[a2 % 2]
+        pk = OS.pk_of(o)
+        newv = 700 + a2 + (getattr(before, col) or 0 if before is not None else 0)
+        sess.connection().exec_driver_sql("update m set %s=? where id=?" % col, (newv, pk))
+        how = (a2 // 2) % 3
+        if how == 0:
+            sess.expire(o, [col])
+        elif how == 1:
+            sess.refresh(o, [col])
+        else:
+            sess.expire(o, ["x", "y"])
+        got = o.pt
+        now = self.probe()
+        row = now["m"].get(pk)
+        self.prev_tables = now
+        self.txn_flushed = True
+        if row is None:
+            return "norow"
+        cols = self.U["tables"]["m"]
+        want = (row[cols.index("x")], row[cols.index("y")])
+        have = None if got is None else (got.x, got.y)
+        if have != want and not (got is None and want == (None, None)):
+            self.V("C46", "composite_read_stale", "M #%s.pt reads %r after %s of column %r while the row has %r"
+                   % (pk, have, ("expire", "refresh", "expire of both columns")[how], col, want))
+        if (o.x, o.y) != want:
+            self.V("C46", "expired_attribute_read_stale", "M #%s (x, y) reads %r while the row has %r" % (pk, (o.x, o.y), want))
+        self.bump("probe:composite_column_expired")
+        return "%d.%s:%d" % (e["label"], col, how)
 
     def op_m_reload(self, a1, a2):
         """C49 round trips: the Mutable values of a persistent parent go through commit+expire, refresh, populate_existing, pickling,
